@@ -165,7 +165,10 @@ func (h *DefaultHandler) HandleOutgoing(msgType string, handle OutgoingHandlerFu
 
 // ServeIncoming is an internal method for handling incoming messages.
 func (h *DefaultHandler) ServeIncoming(msg []byte) {
-	h.incoming <- msg
+	select {
+	case h.incoming <- msg:
+	case <-h.ctx.Done():
+	}
 }
 
 func (h *DefaultHandler) serve(msg []byte) (err error) {
